@@ -34,6 +34,8 @@ def fold_cases(draw):
     for _ in range(n):
         lo = draw(st.sampled_from([0.0, 1.0, -1.0])) * 10 ** draw(st.floats(-3, 9)) if draw(st.booleans()) else draw(st.floats(-10, 10))
         w = 10 ** draw(st.floats(-9, 9))
+        if draw(st.integers(0, 9)) == 0:
+            w = 10 ** draw(st.sampled_from([20.0, 30.0, 300.0]))        # a far limit that stands for "none"
         w = max(w, abs(lo) * 1e-12)
         kind = draw(st.sampled_from(["inside", "wall", "near", "far", "huge", "abs"]))
         if kind == "inside":
@@ -167,6 +169,8 @@ def body_folds(case, ctx):
         if l < t < h and signs is not None and float(signs[i]) != 1.0:
             raise Violation("fold:momentum-sign", f"theta={t!r} already inside [{l!r}, {h!r}]: momentum factor {signs[i]!r}")
         tol = 8 * EPS * (abs(t) + abs(l) + abs(h))
+        # (the property allows rounding 'at the scale of the limits': with a far limit of 1e30 standing for 'none' that allowance is
+        # enormous - what such limits do to the sampled law is judged in C01's long-run sub-check)
         err = abs(float(Fraction(r) - exact))
         ctx.ratio("fold-accuracy", err, tol)
         if err > tol:
